@@ -222,6 +222,22 @@ def _term(t: Any) -> str:
 
 
 # ---------------------------------------------------------------------------
+def stale_pushes(il: list) -> list[str]:
+    """pushes whose value reads a register / flag / memory cell that an earlier statement of the same instruction already wrote"""
+    out = []
+    for i, st in enumerate(il):
+        if not (isinstance(st, Term) and st.ctor == "push"):
+            continue
+        reads = {repr(t.args[1]) for t in ilfacts.walk(st.args[1]) if t.ctor == "load"} | {repr(t.args[1]) for t in ilfacts.walk(st.args[1]) if t.ctor == "reg"} | {repr(t.args[0]) for t in ilfacts.walk(st.args[1]) if t.ctor == "flag"}
+        for j, prev in enumerate(il[:i]):
+            if not isinstance(prev, Term):
+                continue
+            wrote = repr(prev.args[1]) if prev.ctor == "store" else repr(prev.args[1]) if prev.ctor == "set_reg" else repr(prev.args[0]) if prev.ctor == "set_flag" else None
+            if wrote is not None and wrote in reads:
+                out.append(f"IR pushes {_term(st.args[1])} after statement {j} of the same instruction already wrote {wrote}: the frame holds the new value, RETI cannot restore the old one")
+    return out
+
+
 def frames(ctx: Ctx, rows: dict, base: list, rs: RustProgram) -> None:
     by = {c.opcode: c for c in base if c.selector is None and c.status == "ok"}
     n = 0
@@ -274,14 +290,8 @@ def frames(ctx: Ctx, rows: dict, base: list, rs: RustProgram) -> None:
         ctx.violation("C05.3/irq-frame", "IR/RETI widths", f"IR pushes {[st.args[0] for _i, st in pushes]} bytes, RETI pops {pops(reti.il_terms)}; expected 3,1,1 and 1,1,3", isa.INSTR_PY)
     for i, st in pushes:
         n += 1
-        reads = {repr(t.args[1]) for t in ilfacts.walk(st.args[1]) if t.ctor == "load"} | {repr(t.args[1]) for t in ilfacts.walk(st.args[1]) if t.ctor == "reg"} | {repr(t.args[0]) for t in ilfacts.walk(st.args[1]) if t.ctor == "flag"}
-        for j, prev in enumerate(ir.il_terms[:i]):
-            if not isinstance(prev, Term):
-                continue
-            wrote = repr(prev.args[1]) if prev.ctor == "store" else repr(prev.args[1]) if prev.ctor == "set_reg" else repr(prev.args[0]) if prev.ctor == "set_flag" else None
-            if wrote is not None and wrote in reads:
-                ctx.violation("C05.3/irq-frame", key_of(isa.INSTR_PY, "IR.lift", "pushed value read after it was overwritten"),
-                              f"IR pushes {_term(st.args[1])} after statement {j} of the same instruction already wrote {wrote}: the frame holds the new value, RETI cannot restore the old one", isa.INSTR_PY)
+    for what in stale_pushes(ir.il_terms):
+        ctx.violation("C05.3/irq-frame", key_of(isa.INSTR_PY, "IR.lift", "pushed value read after it was overwritten"), what, isa.INSTR_PY)
     # correspondence of the saved items: third push loads the cell RETI's first pop stores to; second push packs C/Z, RETI's second pop unpacks them
     n += 1
     st_imr = [repr(t.args[1]) for st in reti.il_terms[:1] for t in [st] if isinstance(st, Term) and st.ctor == "store" and any(x.ctor == "pop" for x in ilfacts.walk(st.args[2]))]
@@ -372,7 +382,8 @@ def _arm_target(rs: RustProgram, kind: str, opcode: int, decoded: dict, pc: int)
     raise AnalysisError(f"execute_with::{kind} (opcode {opcode:#04x}) does not reach state.set_pc")
 
 
-def rust_formulas(ctx: Ctx, py: PyProgram, rs: RustProgram, rows: dict, base: list, addr: int = ADDR, tag: str = "") -> None:
+def rust_formulas(ctx: Ctx, py: PyProgram, rs: RustProgram, rows: dict, base: list, addr: int = ADDR, tag: str = "", prefix_len: int = 0) -> None:
+    """prefix_len: PRE bytes in front of the opcode; the Rust decoder adds them to decoded.len (decode_with_prefix), the cases' `n` does not count them"""
     ADDR = addr  # noqa: N806
     rel = rs.file_for(isa.EVAL_RS)
     by = {c.opcode: c for c in base if c.selector is None and c.status == "ok"}
@@ -405,13 +416,13 @@ def rust_formulas(ctx: Ctx, py: PyProgram, rs: RustProgram, rows: dict, base: li
     # JP mn / JPF lmn, CALL mn / CALLF lmn: the value the arm hands to set_pc, with the operand bytes symbolic
     for kind, op, bits, val, ln_ in (("JpAbs", 0x02, 16, val16, 3), ("JpAbs", 0x03, 20, val20, 4), ("Call", 0x04, 16, val16, 3), ("Call", 0x05, 24, val24, 4)):
         n += 1
-        got, _log = _arm_target(rs, kind, op, {"imm": ("some", (val, bits)), "mem": None, "mem2": None, "reg3": None, "len": ln_}, ADDR)
+        got, _log = _arm_target(rs, kind, op, {"imm": ("some", (val, bits)), "mem": None, "mem2": None, "reg3": None, "len": ln_ + prefix_len}, ADDR)
         want = by[op].branches[0][1]
         if not same(got, want):
             ctx.violation("C05.4/rust-target", key_of(rel, f"execute_with::{kind}", f"dest bits={bits}"), f"Rust {'JP' if kind == 'JpAbs' else 'CALL'} target for {bits}-bit operands is {_s(BitVec.lift(got)) if not isinstance(got, Lin) else got}, Python reports {_s(want)}", f"{rel}:{arms_ln[kind]}")
     # RET: low 16 bits popped, page of the executing instruction
     n += 1
-    got, _log = _arm_target(rs, "Ret", 0x06, {"imm": None, "mem": None, "mem2": None, "reg3": None, "len": 1}, ADDR)
+    got, _log = _arm_target(rs, "Ret", 0x06, {"imm": None, "mem": None, "mem2": None, "reg3": None, "len": 1 + prefix_len}, ADDR)
     want = (BitVec.sym("ret", 16) | BitVec.const(ADDR & 0xFF0000)) & 0xFFFFF
     if isinstance(got, Lin) or BitVec.lift(got).bits[:24] != want.bits[:24]:
         ctx.violation("C05.4/rust-target", key_of(rel, "execute_with::Ret", "dest"), f"Rust RET target {_s(BitVec.lift(got)) if not isinstance(got, Lin) else got} differs from low16(pop) | current page", f"{rel}:{arms_ln['Ret']}")
@@ -420,7 +431,7 @@ def rust_formulas(ctx: Ctx, py: PyProgram, rs: RustProgram, rows: dict, base: li
         if r.cls != "JP_Rel" or op not in by or not by[op].branches:
             continue
         n += 1
-        got, _log = _arm_target(rs, "JpRel", op, {"imm": ("some", (BitVec.sym("in0", 8), 8)), "mem": None, "mem2": None, "reg3": None, "len": by[op].n}, ADDR)
+        got, _log = _arm_target(rs, "JpRel", op, {"imm": ("some", (BitVec.sym("in0", 8), 8)), "mem": None, "mem2": None, "reg3": None, "len": by[op].n + prefix_len}, ADDR)
         taken = [t for k_, t in by[op].branches if "False" not in str(k_)]
         want = taken[0] if taken else by[op].branches[0][1]
         if not same(got, want):
